@@ -12,6 +12,8 @@
 #include "stubs/C05_jval.h"
 
 bool nondet_bool(void);
+/* `catch (const std::out_of_range&)`: no class of the model's exception table derives from out_of_range */
+#define C05_CATCHES_out_of_range(x) ((x) == EXC_out_of_range)
 
 #ifdef VERIF_SMALL            /* replay search: a counterexample on a text of at most 8 bytes, cursor at 0 */
 #define C05_MAX 8
@@ -34,24 +36,29 @@ bool nondet_bool(void);
 #define C05_GHOSTS_NUM
 #define C05_GHOSTS_STR
 extern size_t g_len, g_off, g_mk;                 /* reader-contract ghosts (contracts/RW_types.h, stubs/libc.h) */
-extern size_t g_cmk;                              /* ghost index used for skip_if's "matched bytes" clause */
+extern size_t g_cmk;                              /* ghost index used for skip_if's "matched bytes" clause (input ghost) */
+extern size_t g_wk;                               /* ghost index into the bytes consumed by skip_whitespace_and_comments (input ghost) */
 extern uint8_t g_b0, g_b1, g_b2, g_b3, g_b4, g_b5, g_b6, g_b7;      /* VERIF_SMALL: the input bytes (for the native replay) */
-extern bool g_de;                                 /* disable_extensions of the call under proof (replay) */
-/* parse */
-extern int g_pc;                                  /* byte at the cursor when JSON::parse is entered (-1: end) */
-extern int g_root;                                /* first byte after whitespace */
-/* skip_whitespace_and_comments */
-extern int g_wc0, g_wc1;                          /* the two bytes at the cursor on entry */
-extern size_t g_woff0, g_wk;                      /* entry cursor; ghost index into the consumed bytes */
-extern bool g_cm, g_wk_ok, g_wsc;                 /* spec automaton: inside a comment; byte g_wk consumed as the spec says; spec consumes the current byte */
-/* containers (output mirrors of the per-activation locals) */
-extern int g_cq; extern size_t g_cn, g_cend; extern bool g_csync;
-extern int g_nt, g_t0, g_t1, g_t2, g_t3, g_t4, g_t5;             /* the first six abstract tokens (replay) */
-/* entry points */
-extern int g_stage; extern size_t g_fin_off;
-
-#define C05_GHOSTS g_len, g_off, g_mk, g_pc, g_root, g_wc0, g_wc1, g_woff0, g_cm, g_wk_ok, g_wsc, g_cq, g_cn, g_cend, g_csync, \
-                   g_nt, g_t0, g_t1, g_t2, g_t3, g_t4, g_t5, g_stage, g_fin_off C05_GHOSTS_NUM C05_GHOSTS_STR
+/* ghosts written by the code under proof are members of two objects (one assigns target each: the cost of --dfcc grows with
+ * the number of assigns targets) */
+struct c05_skip_ghost {
+  int c0, c1;                                     /* the two bytes at the cursor on entry */
+  size_t off0;                                    /* entry cursor */
+  bool cm, k_ok, sc;                              /* spec automaton: inside a comment; byte g_wk consumed as the spec says; spec consumes the current byte */
+};
+struct c05_ghost {
+  bool de;                                        /* disable_extensions of the call under proof (replay) */
+  int pc;                                         /* byte at the cursor when JSON::parse is entered (-1: end) */
+  int root;                                       /* first byte after whitespace */
+  int cq; size_t cn, cend; bool csync;            /* containers: output mirrors of the per-activation locals verif_q, ... */
+  int nt; uint64_t tok;                           /* number of abstract tokens, the last sixteen of them (replay) */
+  int stage; size_t fin_off;                      /* entry points */
+  C05_GHOSTS_NUM C05_GHOSTS_STR
+};
+extern struct c05_skip_ghost g_w;
+extern struct c05_ghost g_j;
+#define C05_GHOSTS_LEAF g_len, g_off, g_mk, g_w
+#define C05_GHOSTS C05_GHOSTS_LEAF, g_j
 
 /* every reader call: name the reader state for the C01/C02 contracts (RD_REQ) */
 #define RD(call) (g_len = r->length, g_off = r->offset, g_mk = g_cmk, (call))
@@ -87,45 +94,45 @@ __CPROVER_assigns(verif_exc);
  *   inside a comment:  consume; LF or CR leaves the comment
  * Observation (not part of the statement): with extensions on, a `/` that is the last byte of the input makes the
  * look-ahead throw out_of_range. */
-#define C05_SKIP(r, de) (g_wc0 = C05_PEEK(r), g_wc1 = C05_PEEK2(r), skip_whitespace_and_comments(r, de))
-#define C05_SKIP_ENTRY g_woff0 = r->offset; g_cm = 0; g_wk_ok = 0; g_wsc = 0
+#define C05_SKIP(r, de) (g_w.c0 = C05_PEEK(r), g_w.c1 = C05_PEEK2(r), skip_whitespace_and_comments(r, de))
+#define C05_SKIP_ENTRY g_w.off0 = r->offset; g_w.cm = 0; g_w.k_ok = 0; g_w.sc = 0
 #define C05_WSPEC_CONSUME(cm, c, c2, de) ((cm) || C05_ISWS(c) || (!(de) && (c) == '/' && (c2) == '/'))
 /* ghost at loop-body start: what the spec does with the byte at the cursor */
 #define C05_SKIP_STEP { int verif_c = C05_PEEK(r); int verif_c2 = C05_PEEK2(r); \
-                        g_wsc = C05_WSPEC_CONSUME(g_cm, verif_c, verif_c2, disable_extensions); \
-                        if (r->offset == g_wk) g_wk_ok = g_wsc; \
-                        g_cm = g_cm ? !(verif_c == '\n' || verif_c == '\r') : (!C05_ISWS(verif_c) && g_wsc); }
+                        g_w.sc = C05_WSPEC_CONSUME(g_w.cm, verif_c, verif_c2, disable_extensions); \
+                        if (r->offset == g_wk) g_w.k_ok = g_w.sc; \
+                        g_w.cm = g_w.cm ? !(verif_c == '\n' || verif_c == '\r') : (!C05_ISWS(verif_c) && g_w.sc); }
 /* the byte c (followed by c2) stops the scan */
 #define C05_WSTOP(c, c2, de) (!C05_ISWS(c) && ((de) || (c) != '/' || (c2) != '/'))
 void skip_whitespace_and_comments(StringReader* r, bool disable_extensions)
 C05_RD_REQ(r)
-__CPROVER_requires(g_wc0 == C05_PEEK(r) && g_wc1 == C05_PEEK2(r))
+__CPROVER_requires(g_w.c0 == C05_PEEK(r) && g_w.c1 == C05_PEEK2(r))
 __CPROVER_ensures(verif_exc == 0 || verif_exc == EXC_out_of_range)
 __CPROVER_ensures(verif_exc != 0 ==> (!disable_extensions && C05_PEEK(r) == '/' && C05_PEEK2(r) == -1))
 __CPROVER_ensures(r->offset <= r->length && r->offset >= __CPROVER_old(r->offset))
 /* stops exactly where the spec automaton stops: at the end, or outside a comment at a byte that is not consumable */
-__CPROVER_ensures(verif_exc == 0 ==> (r->offset == r->length || (!g_cm && C05_WSTOP(C05_PEEK(r), C05_PEEK2(r), disable_extensions))))
+__CPROVER_ensures(verif_exc == 0 ==> (r->offset == r->length || (!g_w.cm && C05_WSTOP(C05_PEEK(r), C05_PEEK2(r), disable_extensions))))
 /* nothing to skip => nothing consumed */
-__CPROVER_ensures((__CPROVER_old(g_wc0) == -1 || C05_WSTOP(__CPROVER_old(g_wc0), __CPROVER_old(g_wc1), disable_extensions)) ==> r->offset == __CPROVER_old(r->offset))
-__CPROVER_ensures((__CPROVER_old(g_wc0) == -1 || (C05_WSTOP(__CPROVER_old(g_wc0), __CPROVER_old(g_wc1), disable_extensions) && (disable_extensions || __CPROVER_old(g_wc0) != '/'))) ==> verif_exc == 0)
+__CPROVER_ensures((__CPROVER_old(g_w.c0) == -1 || C05_WSTOP(__CPROVER_old(g_w.c0), __CPROVER_old(g_w.c1), disable_extensions)) ==> r->offset == __CPROVER_old(r->offset))
+__CPROVER_ensures((__CPROVER_old(g_w.c0) == -1 || (C05_WSTOP(__CPROVER_old(g_w.c0), __CPROVER_old(g_w.c1), disable_extensions) && (disable_extensions || __CPROVER_old(g_w.c0) != '/'))) ==> verif_exc == 0)
 /* every consumed byte (ghost index g_wk) is one the spec consumes: ws, or -- extensions on -- part of a // comment */
-__CPROVER_ensures((__CPROVER_old(r->offset) <= g_wk && g_wk < r->offset) ==> g_wk_ok)
+__CPROVER_ensures((__CPROVER_old(r->offset) <= g_wk && g_wk < r->offset) ==> g_w.k_ok)
 __CPROVER_ensures((disable_extensions && __CPROVER_old(r->offset) <= g_wk && g_wk < r->offset) ==> C05_ISWS(r->data[g_wk]))
-__CPROVER_assigns(verif_exc, r->offset, C05_GHOSTS);
+__CPROVER_assigns(verif_exc, r->offset, C05_GHOSTS_LEAF);
 
 /* ========================================================================================== JSON::parse (reader)
  * O-1 (also the induction hypothesis for the recursive calls inside the container loops): */
 void JSON_parse(StringReader* r, bool disable_extensions, JVal* ret)
 C05_RD_REQ(r) C05_RET_REQ
-__CPROVER_requires(g_pc == C05_PEEK(r))
+__CPROVER_requires(g_j.pc == C05_PEEK(r))
 C05_TOTAL(r)
 /* success => at least one byte consumed.  Observation: a lone '+' is taken as the integer 0 and consumes nothing. */
-__CPROVER_ensures(verif_exc == 0 ==> (r->offset > __CPROVER_old(r->offset) || __CPROVER_old(g_pc) == '+'))
-__CPROVER_ensures(__CPROVER_old(g_pc) == -1 ==> verif_exc == EXC_out_of_range)
-__CPROVER_ensures(C05_ISCLOSER(__CPROVER_old(g_pc)) ==> verif_exc == EXC_parse_error)
+__CPROVER_ensures(verif_exc == 0 ==> (r->offset > __CPROVER_old(r->offset) || __CPROVER_old(g_j.pc) == '+'))
+__CPROVER_ensures(__CPROVER_old(g_j.pc) == -1 ==> verif_exc == EXC_out_of_range)
+__CPROVER_ensures(C05_ISCLOSER(__CPROVER_old(g_j.pc)) ==> verif_exc == EXC_parse_error)
 C05_ASSIGNS(r);
 #define C05_PARSE_ENTRY
-#define C05_PARSE_ROOT g_root = root_type_ch
+#define C05_PARSE_ROOT g_j.root = root_type_ch
 
 /* ============================================================================================ container loops (O-3)
  * Abstract token stream: structural bytes, end of input, and "a value starts here" (decided by the child call, which is
@@ -134,20 +141,19 @@ C05_ASSIGNS(r);
  *   dict:  { ws }  |  { ws S ws : ws V ws (, ws S ws : ws V ws)* }   (S = a value that is a string; anything else: parse_error) */
 enum { CQ_START = 0, CQ_OPEN = 1, CQ_AFTERV = 2, CQ_AFTERC = 3, CQ_ACC = 4, CQ_REJ = 5, CQ_CHILDFAIL = 6, CQ_TRUNC = 7,
        CQ_PENDING = 8, CQ_KEYOK = 9, CQ_COLON = 10, CQ_PENDV = 11 };
-/* token codes recorded for the replay: 1 open, 2 close, 3 comma, 4 colon, 5 value (not a string), 6 string value, 7 other byte, 8 end of input, 9 value that fails */
+/* token codes recorded for the replay (4 bits each, most recent token in the low nibble of g_j.tok):
+ * 1 open, 2 close, 3 comma, 4 colon, 5 value (not a string), 6 string value, 7 other byte, 8 end of input, 9 value that fails */
 #define C05_TOKCODE(c, close) ((c) == -1 ? 8 : (c) == (close) ? 2 : (c) == ',' ? 3 : (c) == ':' ? 4 : 7)
-#define C05_REC(code) { int verif_code = (code); if (verif_nt == 0) verif_t0 = verif_code; else if (verif_nt == 1) verif_t1 = verif_code; else if (verif_nt == 2) verif_t2 = verif_code; \
-                        else if (verif_nt == 3) verif_t3 = verif_code; else if (verif_nt == 4) verif_t4 = verif_code; else if (verif_nt == 5) verif_t5 = verif_code; if (verif_nt < 100) verif_nt++; }
-#define C05_C_SYNC (g_cq = verif_q, g_cn = verif_n, g_csync = verif_sync, g_cend = verif_end, g_nt = verif_nt, \
-                    g_t0 = verif_t0, g_t1 = verif_t1, g_t2 = verif_t2, g_t3 = verif_t3, g_t4 = verif_t4, g_t5 = verif_t5)
+#define C05_REC(code) (verif_tok = (verif_tok << 4) | (uint64_t)(code), verif_nt = verif_nt < 100 ? verif_nt + 1 : verif_nt)
+#define C05_C_SYNC (g_j.cq = verif_q, g_j.cn = verif_n, g_j.csync = verif_sync, g_j.cend = verif_end, g_j.nt = verif_nt, g_j.tok = verif_tok)
 #define C05_C_ENTRY int verif_q = CQ_START; size_t verif_n = 0, verif_end = 0; bool verif_sync = 1; size_t verif_off0 = r->offset; \
-                    int verif_nt = 0, verif_t0 = 0, verif_t1 = 0, verif_t2 = 0, verif_t3 = 0, verif_t4 = 0, verif_t5 = 0; g_de = disable_extensions; C05_C_SYNC
+                    int verif_nt = 0; uint64_t verif_tok = 0; g_j.de = disable_extensions; C05_C_SYNC
 /* the opening bracket */
 #define C05_C_OPEN { verif_q = CQ_OPEN; C05_REC(1); C05_C_SYNC; }
 /* token boundary where a value or the closing bracket may come (after the opening bracket / after a comma) */
-#define C05_C_PEEK_A(close, other) { int verif_c = C05_PEEK(r); verif_sync = verif_sync && !C05_ISWS(verif_c); g_pc = verif_c; \
+#define C05_C_PEEK_A(close) { int verif_c = C05_PEEK(r); verif_sync = verif_sync && !C05_ISWS(verif_c); g_j.pc = verif_c; \
     if (verif_q == CQ_OPEN || verif_q == CQ_AFTERC) { \
-      if (verif_c == (close)) { C05_REC(2); } else if (verif_c == -1) { C05_REC(8); } else if (C05_ISCLOSER(verif_c)) { C05_REC(C05_TOKCODE(verif_c, close)); } \
+      if (verif_c == -1 || C05_ISCLOSER(verif_c)) C05_REC(C05_TOKCODE(verif_c, close)); \
       verif_q = verif_c == -1 ? CQ_TRUNC : verif_c == (close) ? ((verif_q == CQ_OPEN || !disable_extensions) ? CQ_ACC : CQ_REJ) : C05_ISCLOSER(verif_c) ? CQ_REJ : CQ_PENDING; \
       if (verif_q == CQ_ACC) verif_end = r->offset + 1; } \
     C05_C_SYNC; }
@@ -159,32 +165,26 @@ enum { CQ_START = 0, CQ_OPEN = 1, CQ_AFTERV = 2, CQ_AFTERC = 3, CQ_ACC = 4, CQ_R
     C05_C_SYNC; }
 /* after the recursive call (expression: runs before the exception is propagated) */
 #define C05_C_VAL_DONE(pend, v) (verif_q = verif_q == (pend) ? (verif_exc ? CQ_CHILDFAIL : CQ_AFTERV) : verif_q, verif_n = verif_n + (verif_exc == 0), \
-    verif_t0 = (verif_nt == 0) ? (verif_exc ? 9 : 5 + (v).is_string) : verif_t0, verif_t1 = (verif_nt == 1) ? (verif_exc ? 9 : 5 + (v).is_string) : verif_t1, \
-    verif_t2 = (verif_nt == 2) ? (verif_exc ? 9 : 5 + (v).is_string) : verif_t2, verif_t3 = (verif_nt == 3) ? (verif_exc ? 9 : 5 + (v).is_string) : verif_t3, \
-    verif_t4 = (verif_nt == 4) ? (verif_exc ? 9 : 5 + (v).is_string) : verif_t4, verif_t5 = (verif_nt == 5) ? (verif_exc ? 9 : 5 + (v).is_string) : verif_t5, \
-    verif_nt = verif_nt < 100 ? verif_nt + 1 : verif_nt, C05_C_SYNC)
+    C05_REC(verif_exc ? 9 : (v).is_string ? 6 : 5), C05_C_SYNC)
 
 #define C05_LIST_ENTRY C05_C_ENTRY
 #define C05_LIST_OPEN C05_C_OPEN
-#define C05_LIST_PEEK_A C05_C_PEEK_A(']', '}')
-#define C05_LIST_PEEK_V g_pc = C05_PEEK(r)
+#define C05_LIST_PEEK_A C05_C_PEEK_A(']')
+#define C05_LIST_PEEK_V g_j.pc = C05_PEEK(r)
 #define C05_LIST_CHILD_DONE C05_C_VAL_DONE(CQ_PENDING, verif_v)
 #define C05_LIST_PEEK_C C05_C_PEEK_C(']')
 
 #define C05_DICT_ENTRY C05_C_ENTRY
 #define C05_DICT_OPEN C05_C_OPEN
-#define C05_DICT_PEEK_A C05_C_PEEK_A('}', ']')
+#define C05_DICT_PEEK_A C05_C_PEEK_A('}')
 /* the key has been parsed: a key that is not a string is a parse error (RFC 8259 section 4: member = string : value) */
 #define C05_DICT_KEY_DONE (verif_q = verif_q == CQ_PENDING ? (verif_exc ? CQ_CHILDFAIL : key.is_string ? CQ_KEYOK : CQ_REJ) : verif_q, \
-    verif_t0 = (verif_nt == 0) ? (verif_exc ? 9 : 5 + key.is_string) : verif_t0, verif_t1 = (verif_nt == 1) ? (verif_exc ? 9 : 5 + key.is_string) : verif_t1, \
-    verif_t2 = (verif_nt == 2) ? (verif_exc ? 9 : 5 + key.is_string) : verif_t2, verif_t3 = (verif_nt == 3) ? (verif_exc ? 9 : 5 + key.is_string) : verif_t3, \
-    verif_t4 = (verif_nt == 4) ? (verif_exc ? 9 : 5 + key.is_string) : verif_t4, verif_t5 = (verif_nt == 5) ? (verif_exc ? 9 : 5 + key.is_string) : verif_t5, \
-    verif_nt = verif_nt < 100 ? verif_nt + 1 : verif_nt, C05_C_SYNC)
+    C05_REC(verif_exc ? 9 : key.is_string ? 6 : 5), C05_C_SYNC)
 #define C05_DICT_PEEK_D { int verif_c = C05_PEEK(r); verif_sync = verif_sync && !C05_ISWS(verif_c); \
     if (verif_q == CQ_KEYOK) { C05_REC(C05_TOKCODE(verif_c, '}')); verif_q = verif_c == -1 ? CQ_TRUNC : verif_c == ':' ? CQ_COLON : CQ_REJ; } \
     C05_C_SYNC; }
-#define C05_DICT_PEEK_V { int verif_c = C05_PEEK(r); verif_sync = verif_sync && !C05_ISWS(verif_c); g_pc = verif_c; \
-    if (verif_q == CQ_COLON) { if (verif_c == -1 || C05_ISCLOSER(verif_c)) { C05_REC(C05_TOKCODE(verif_c, '}')); } \
+#define C05_DICT_PEEK_V { int verif_c = C05_PEEK(r); verif_sync = verif_sync && !C05_ISWS(verif_c); g_j.pc = verif_c; \
+    if (verif_q == CQ_COLON) { if (verif_c == -1 || C05_ISCLOSER(verif_c)) C05_REC(C05_TOKCODE(verif_c, '}')); \
       verif_q = verif_c == -1 ? CQ_TRUNC : C05_ISCLOSER(verif_c) ? CQ_REJ : CQ_PENDV; } \
     C05_C_SYNC; }
 #define C05_DICT_VAL_DONE C05_C_VAL_DONE(CQ_PENDV, verif_v)
@@ -192,15 +192,15 @@ enum { CQ_START = 0, CQ_OPEN = 1, CQ_AFTERV = 2, CQ_AFTERC = 3, CQ_ACC = 4, CQ_R
 
 #define C05_CONTAINER_POST(kindv) \
 /* spec accepts <=> code accepts */ \
-__CPROVER_ensures(g_cq == CQ_ACC ==> verif_exc == 0) \
-__CPROVER_ensures(verif_exc == 0 ==> g_cq == CQ_ACC) \
+__CPROVER_ensures(g_j.cq == CQ_ACC ==> verif_exc == 0) \
+__CPROVER_ensures(verif_exc == 0 ==> g_j.cq == CQ_ACC) \
 /* which documented exception: malformed -> parse_error, unterminated -> out_of_range */ \
-__CPROVER_ensures(g_cq == CQ_REJ ==> verif_exc == EXC_parse_error) \
-__CPROVER_ensures(g_cq == CQ_TRUNC ==> verif_exc == EXC_out_of_range) \
+__CPROVER_ensures(g_j.cq == CQ_REJ ==> verif_exc == EXC_parse_error) \
+__CPROVER_ensures(g_j.cq == CQ_TRUNC ==> verif_exc == EXC_out_of_range) \
 /* value: kind, number of members; extent: the cursor is right behind the closing bracket the spec accepted; every token \
  * boundary was reached with the whitespace skipped */ \
-__CPROVER_ensures(verif_exc == 0 ==> (ret->kind == (kindv) && ret->count == g_cn && !ret->is_string)) \
-__CPROVER_ensures(verif_exc == 0 ==> (r->offset == g_cend && g_csync)) \
+__CPROVER_ensures(verif_exc == 0 ==> (ret->kind == (kindv) && ret->count == g_j.cn && !ret->is_string)) \
+__CPROVER_ensures(verif_exc == 0 ==> (r->offset == g_j.cend && g_j.csync)) \
 __CPROVER_ensures(verif_exc == 0 ==> r->offset > __CPROVER_old(r->offset))
 
 void JSON_parse_list(StringReader* r, bool disable_extensions, JVal* ret)
@@ -219,10 +219,10 @@ C05_ASSIGNS(r);
 
 #define C05_CONTAINER_INV(open, close, kindv) \
 __CPROVER_assigns(verif_exc, r->offset, separator, expected_separator, __CPROVER_object_whole(ret), C05_GHOSTS, \
-                  verif_q, verif_n, verif_end, verif_sync, verif_nt, verif_t0, verif_t1, verif_t2, verif_t3, verif_t4, verif_t5) \
+                  verif_q, verif_n, verif_end, verif_sync, verif_nt, verif_tok) \
 __CPROVER_loop_invariant(verif_exc == 0 && r->offset <= r->length && r->offset > verif_off0 && verif_sync) \
 __CPROVER_loop_invariant(ret->kind == (kindv) && ret->count == verif_n && !ret->is_string) \
-__CPROVER_loop_invariant(g_cq == verif_q && g_cn == verif_n && g_csync == verif_sync && g_cend == verif_end) \
+__CPROVER_loop_invariant(g_j.cq == verif_q && g_j.cn == verif_n && g_j.csync == verif_sync && g_j.cend == verif_end) \
 __CPROVER_loop_invariant((verif_q == CQ_OPEN && separator == (open) && expected_separator == (open)) || \
                          (expected_separator == ',' && ((separator == ',' && verif_q == CQ_AFTERC) || \
                                                         (separator == (close) && verif_q == CQ_ACC && verif_end == r->offset) || \
@@ -257,17 +257,17 @@ __CPROVER_ensures(verif_exc == 0 ==> r->offset > __CPROVER_old(r->offset))
 C05_ASSIGNS(r);
 
 /* ============================================================================================= string entry points */
-#define C05_CSTR_ENTRY g_stage = 0
-#define C05_CSTR_PARSED g_stage = 1
-#define C05_CSTR_SKIPPED g_stage = 2; g_fin_off = r->offset
+#define C05_CSTR_ENTRY g_j.stage = 0
+#define C05_CSTR_PARSED g_j.stage = 1
+#define C05_CSTR_SKIPPED g_j.stage = 2; g_j.fin_off = r->offset
 void JSON_parse_cstr(const char* s, size_t size, bool disable_extensions, JVal* ret)
 __CPROVER_requires(size <= C05_MAX) __CPROVER_requires(__CPROVER_is_fresh(s, size)) C05_RET_REQ
 __CPROVER_requires(verif_exc == 0)
 __CPROVER_ensures(C05_EXCSET)
 /* success => nothing but whitespace/comments remained: the whole text was consumed */
-__CPROVER_ensures(verif_exc == 0 ==> (g_stage == 2 && g_fin_off == size))
+__CPROVER_ensures(verif_exc == 0 ==> (g_j.stage == 2 && g_j.fin_off == size))
 /* a value followed by something that is not whitespace/comment is rejected with parse_error */
-__CPROVER_ensures((g_stage == 2 && g_fin_off != size) ==> verif_exc == EXC_parse_error)
+__CPROVER_ensures((g_j.stage == 2 && g_j.fin_off != size) ==> verif_exc == EXC_parse_error)
 __CPROVER_assigns(verif_exc, __CPROVER_object_whole(ret), C05_GHOSTS);
 
 void JSON_parse_str(const vstr* s, bool disable_extensions, JVal* ret)
@@ -275,8 +275,8 @@ __CPROVER_requires(__CPROVER_is_fresh(s, sizeof(vstr))) __CPROVER_requires(s->si
 __CPROVER_requires(__CPROVER_is_fresh(s->data, s->cap)) C05_RET_REQ
 __CPROVER_requires(verif_exc == 0)
 __CPROVER_ensures(C05_EXCSET)
-__CPROVER_ensures(verif_exc == 0 ==> (g_stage == 2 && g_fin_off == s->size))
-__CPROVER_ensures((g_stage == 2 && g_fin_off != s->size) ==> verif_exc == EXC_parse_error)
+__CPROVER_ensures(verif_exc == 0 ==> (g_j.stage == 2 && g_j.fin_off == s->size))
+__CPROVER_ensures((g_j.stage == 2 && g_j.fin_off != s->size) ==> verif_exc == EXC_parse_error)
 __CPROVER_assigns(verif_exc, __CPROVER_object_whole(ret), C05_GHOSTS);
 
 #endif
